@@ -78,14 +78,14 @@ COMP_NAME = {"ui": "userinfo", "port": "port", "path": "path", "query": "query",
 PLAIN = {
     "ui": ["user@", "user:pw@"],
     "port": [":8080", ":443", ":80"],
-    "path": ["/", "/abc", "/a/b.html", "/index.html", "/home", "/aB3dE9", "/abc/", "/abc/def"],
+    "path": ["/", "/abc", "/a/b.html", "/index.html", "/home", "/aB3dE9", "/abc/", "/abc/def", "//watch", "//abc/"],  # (a leading empty segment: 'host.tld//x' is not 'scheme://x')
     "query": ["?a=1", "?v=1.2&b=c"],
     "frag": ["#f", "#sec.2"],
 }
 NEUTRAL = {"ui": "user@", "port": ":8080", "path": "/abc", "query": "?a=1", "frag": "#f"}
 DECOYS = {
     "ui": [("%s@", "decoy-user"), ("%s:pw@", "decoy-user-password"), ("user:%s@", "decoy-password")],
-    "path": [("/@%s", "decoy-at"), ("/x.%s/", "decoy-sub"), ("/%s", "decoy-bare"), ("/a/%s/b", "decoy-segment")],
+    "path": [("/@%s", "decoy-at"), ("/x.%s/", "decoy-sub"), ("/%s", "decoy-bare"), ("/a/%s/b", "decoy-segment"), ("//x.%s/", "decoy-after-empty-segment")],
     "query": [("?@%s", "decoy-at"), ("?u=x.%s/abc", "decoy-sub"), ("?u=%s/abc", "decoy-bare"), ("?u=http://%s/abc", "decoy-url")],
     "frag": [("#@%s", "decoy-at"), ("#x.%s/", "decoy-sub"), ("#%s", "decoy-bare")],
 }
